@@ -2233,6 +2233,15 @@ pub fn c06(ctx: &mut Ctx, base: &str, reference: &str) -> Option<Vec<u8>> {
     if a != bb || a != c {
         ctx.fail("C06.entry-points", f("all"), format!("{} against {}: resolved() = {}, resolve() = {}, into_resolved() = {}", show(b(reference)), show(b(base)), show(&a), show(&bb), show(&c)));
     }
+    // the in-place entry points again on a buffer with spare capacity (no reallocation while splicing)
+    if let Ok(spare) = RiRefBuf::new(own_spare(reference)) {
+        match crate::ctx::guard(|| { let mut o = RiRefBuf::new(own_spare(reference)).unwrap(); o.resolve(bi); (o.as_bytes().to_vec(), spare.into_resolved(bi).as_bytes().to_vec()) }) {
+            Ok((d1, d2)) => if d1 != a || d2 != a {
+                ctx.fail("C06.entry-points", f("all"), format!("{} against {}: with spare capacity resolve() = {}, into_resolved() = {}, resolved() = {}", show(b(reference)), show(b(base)), show(&d1), show(&d2), show(&a)));
+            },
+            Err(m) => ctx.fail("C06.panic", f("resolve"), format!("resolve in place with spare capacity ({}, base {}) panicked: {}", show(b(reference)), show(b(base)), m)),
+        }
+    }
     let detail = |got: &[u8]| format!("{} resolved against {}: library {} ; RFC 3986 5.2 target {} (branch {})", show(b(reference)), show(b(base)), show(got), show(&rec), t.branch);
     // features of a path deviation carry whether it is exactly the recorded deviation
     let quirk = c06_matches_quirk(&t, b(base), b(reference), &a);
